@@ -340,7 +340,8 @@ def judge(chk, traces):
                 'in-memory network; distinct = distinct recorded event traces')
 
 
-MODEL_KINDS = {'page': 'page', 'redirect': 'redirect', 'notfound': 'notfound', 'error500': 'error', 'drop': 'error'}
+MODEL_KINDS = {'page': 'page', 'redirect': 'redirect', 'notfound': 'notfound', 'error500': 'error', 'drop': 'error',
+               'interim_forever': 'error'}
 
 
 def strict_eligible(scn):
